@@ -26,7 +26,8 @@ var (
 )
 
 var Subjects = []wm.APeer{{Namespaces: all}, {Namespaces: teamA}, {PodsNS: all, PodsPod: appA}}
-var Peers = []wm.APeer{{Namespaces: all}, {Namespaces: teamB}, {PodsNS: teamA, PodsPod: appA}, {PodsNS: wm.ME("team", "NotIn", "a"), PodsPod: wm.ME("app", "Exists")}}
+var Peers = []wm.APeer{{Namespaces: all}, {Namespaces: teamB}, {PodsNS: teamA, PodsPod: appA}, {PodsNS: wm.ME("team", "NotIn", "a"), PodsPod: wm.ME("app", "Exists")},
+	{PodsNS: all, PodsPod: wm.ME("app", "NotIn", "a")}} // negative only: also matches a pod without labels
 var PortAlpha = []*[]wm.APort{nil,
 	ports(wm.APort{Kind: "num", Proto: "TCP", Num: 80}),
 	ports(wm.APort{Kind: "range", Proto: "TCP", Num: 80, End: 90}),
@@ -64,7 +65,8 @@ func Base() *wm.World {
 		WLs: []wm.Workload{
 			{Kind: "Deployment", NS: "ns1", Name: "w1", Labels: map[string]string{"app": "a"}, Ports: []wm.CPort{{Name: "http", Num: 80}, {Name: "dns", Num: 53, Proto: "UDP"}}, Replicas: 1},
 			{Kind: "Deployment", NS: "ns1", Name: "w2", Labels: map[string]string{"app": "b"}, Ports: []wm.CPort{{Name: "http", Num: 8080}}, Replicas: 1},
-			{Kind: "Deployment", NS: "ns2", Name: "w3", Labels: map[string]string{"app": "a"}, Ports: []wm.CPort{{Name: "http", Num: 88}}, Replicas: 1},
+			// same kind and name as the first workload, in another namespace
+			{Kind: "Deployment", NS: "ns2", Name: "w1", Labels: map[string]string{"app": "a"}, Ports: []wm.CPort{{Name: "http", Num: 88}}, Replicas: 1},
 		}}
 }
 
@@ -228,7 +230,7 @@ func Scopes(quick bool) []c01.Scope {
 	// S-single: one ANP, two rules (in both orders across the two directions) x subject x NP x BANP
 	stride := 1
 	if quick {
-		stride = 5
+		stride = 9
 	}
 	add("S-single", fw.Full, func(c *fw.Ctx) *wm.World {
 		s := fw.Pick(c, Subjects, "subject")
@@ -242,6 +244,9 @@ func Scopes(quick bool) []c01.Scope {
 		np := fw.Pick(c, nps, "NetworkPolicy")
 		b := fw.Pick(c, bs, "BANP")
 		w := Base()
+		if (r1+r2)%2 == 1 {
+			w.WLs[1].Labels = nil // every other world: a workload without labels (negative selectors still match it)
+		}
 		w.ANPs = []wm.ANP{{Name: "a1", Prio: 7, Subject: s, Ingress: []wm.ARule{rules[r1], rules[r2]}, Egress: []wm.ARule{rules[r2], rules[r1]}}}
 		w.NPs, w.BANP = np, b
 		return w
@@ -274,7 +279,7 @@ func Scopes(quick bool) []c01.Scope {
 		ra := c.Choose(len(rules), "rule A (ingress)")
 		rbStride := 3
 		if quick {
-			rbStride = 7
+			rbStride = 15
 		}
 		rb := rbStride * c.Choose((len(rules)+rbStride-1)/rbStride, "rule B (egress)")
 		swap := c.Choose(2, "priorities: A<B | B<A")
